@@ -50,6 +50,9 @@ K REP k_csub(REP a, REP b) { From d{a}; d -= From{b}; return d.count(); }
 K REP k_cmul(REP a, REP b) { From d{a}; d *= b; return d.count(); }
 K REP k_cdiv(REP a, REP b) { From d{a}; d /= b; return d.count(); }
 K void k_zmm(REP* z, REP* mn, REP* mx) { *z = From::zero().count(); *mn = From::min().count(); *mx = From::max().count(); }
+#if REPF
+K REP k_conv(REP c) { To t = From{c}; return t.count(); }  // implicit conversion: every period pair when Rep is floating point
+#endif
 #if !REPF
 K REP k_round(REP c) { return etl::chrono::round<To>(From{c}).count(); }
 K CR k_mod(REP a, REP b) { return (From{a} % To{b}).count(); }
